@@ -32,9 +32,15 @@ ColsOf(gb) == Len(gb) + 1          \* the group-by columns followed by "count"
 \* A DSN is abstract: [scheme, preload, lrucache, size]; scheme "file" | "grpc" | "other";
 \* preload / lrucache: "absent" | "true" | "false" | "junk"; size: "absent" | "zero" | "num" | "junk" | "neg".
 \* sql.Open itself never fails; the first use does.  Only the exact string "true" switches an option on.
-DSNUsable(dsn) ==
-  /\ dsn.scheme \in {"file", "grpc"}
-  /\ (dsn.scheme = "file" /\ dsn.lrucache = "true") => dsn.size \in {"zero", "num"}
+\* "ok": must answer like the library; "either": an orderly error or the right rows (option values the
+\* documentation does not define: junk booleans, a cache size that is missing / not a number / negative,
+\* an unsupported scheme) -- never a panic, never wrong rows
+DSNOutcome(dsn) ==
+  IF /\ dsn.scheme = "file"
+     /\ dsn.preload \in {"absent", "true", "false"}
+     /\ \/ dsn.lrucache \in {"absent", "false"} /\ dsn.size \in {"absent", "zero", "num"}
+        \/ dsn.lrucache = "true" /\ dsn.size \in {"zero", "num"}
+  THEN "ok" ELSE "either"
 \* which index options a usable file DSN selects (observable only through performance, never through answers)
 DSNPreloads(dsn) == dsn.preload = "true"
 DSNCaches(dsn)   == dsn.lrucache = "true"
